@@ -29,8 +29,19 @@ func c01BuildRoot(w *World) {
 	disk, _ := mkRedumpImage(6, []uint32{0, 2, 4, 5}, c10Keys[2], 5)
 	w.Data("PS3ISO/g.iso", disk)
 	w.File("g.iso", 4096, 6)
+	// encrypted images whose own disc-information sector (sector 1: console id, then a 32-byte product id) spells a path:
+	// nothing in an image's content may steer the key lookup out of the root
+	for i, pid := range c01ProductIDs {
+		plain := patBytes(byte(20+i), 0, 6*2048)
+		copy(plain, regionTable([]uint32{0, 2, 4, 5}))
+		copy(plain[0x800:], "PlayStation3\x00\x00\x00\x00")
+		copy(plain[0x810:], append([]byte(pid), bytes.Repeat([]byte{' '}, 32)...)[:32])
+		w.Data(sprintf("PS3ISO/p%d.iso", i), buildEncImage(plain, []uint32{0, 2, 4, 5}, c10Keys[2]))
+	}
 	fixDirTimesUnder(w.Root)
 }
+
+var c01ProductIDs = []string{"../../root-other/k", "../root-other/k", "../k", "../../k", "/../root-other/k", "k/../../../root-other/k", "..\\..\\root-other\\k", "BLES-01234/../../../rootx/k"}
 
 func buildC01World(t testing.TB, withOutside bool) *c01World {
 	w := newWorld(t, "srv/root")
@@ -53,6 +64,9 @@ func buildC01World(t testing.TB, withOutside bool) *c01World {
 		writeFileAbs(filepath.Join(d, "srv", "PS3ISO", "g.iso"), disk, baseTime)
 		writeFileAbs(filepath.Join(d, "REDKEY", "g.dkey"), []byte(hex.EncodeToString(c10Keys[2])), baseTime)
 		writeFileAbs(filepath.Join(d, "srv", "root", "..", "root.dkey"), []byte(hex.EncodeToString(c10Keys[2])), baseTime)
+		for _, kp := range []string{"srv/root-other/k.dkey", "srv/rootx/k.dkey", "srv/k.dkey", "srv/REDKEY/k.dkey", "k.dkey", "REDKEY/k.dkey", "srv/root-other/k"} {
+			writeFileAbs(filepath.Join(d, kp), []byte(hex.EncodeToString(c10Keys[2])), baseTime)
+		}
 	}
 	c01BuildRoot(w)
 	return &c01World{w: w, rootSnap: snapshotTree(w.Root, "")}
@@ -153,7 +167,7 @@ func failureForm(op uint16, resp []byte) bool {
 func TestC01(t *testing.T) {
 	r := NewReporter(t)
 	defer r.Done()
-	r.Rule("path strings = optional leading '/' x all sequences of <= N segments from {'', '.', '..', sub, <root>-other, <root>, out, ***DVD***, ***PS3***, PS3ISO, g.iso, secret.txt, CLOSEFILE} + specials (NUL, 65534-byte path, 300-deep ../, backslashes, '..' decorated with control/space/invalid bytes, paths padded with './', 'x/../', '//' to 255..65535 bytes) x 8 path-carrying opcodes x writing on/off x root spelling (incl. root directories named with trailing dots / spaces next to a sibling without them, and roots kept below directories named PS3ISO / REDKEY / like the virtual-image prefixes with key files all around) x preceding request; short escaping paths also delivered in pieces (1, 7, 17 bytes, cut in the middle and one byte before the end); oracles: (O1) every leaf filesystem operation stays under the root, (O2) sentinel tree outside the root unchanged, (O3) byte-identical responses against a twin world whose outside is empty, (O4) response = model answer for the clamped path or the failure form; the process runs in a working directory full of bait and an encrypted image whose only key files lie outside the root must be served as stored; distinct by (path, mode, spelling, preceding request)")
+	r.Rule("path strings = optional leading '/' x all sequences of <= N segments from {'', '.', '..', sub, <root>-other, <root>, out, ***DVD***, ***PS3***, PS3ISO, g.iso, secret.txt, CLOSEFILE} + specials (NUL, 65534-byte path, 300-deep ../, backslashes, '..' decorated with control/space/invalid bytes, paths padded with './', 'x/../', '//' to 255..65535 bytes) x 8 path-carrying opcodes x writing on/off x root spelling (incl. root directories named with trailing dots / spaces next to a sibling without them, and roots kept below directories named PS3ISO / REDKEY / like the virtual-image prefixes with key files all around) x preceding request; short escaping paths also delivered in pieces (1, 7, 17 bytes, cut in the middle and one byte before the end); oracles: (O1) every leaf filesystem operation stays under the root, (O2) sentinel tree outside the root unchanged, (O3) byte-identical responses against a twin world whose outside is empty, (O4) response = model answer for the clamped path or the failure form; the process runs in a working directory full of bait and an encrypted image whose only key files lie outside the root must be served as stored, also images whose own disc-information sector spells a path towards those key files (8 spellings); distinct by (path, mode, spelling, preceding request)")
 	A := buildC01World(t, true)
 	B := buildC01World(t, false)
 	defer A.w.Cleanup()
@@ -168,6 +182,9 @@ func TestC01(t *testing.T) {
 	// the implicit key lookup: /PS3ISO/g.iso is an encrypted image with no key file inside the root (keys lie outside,
 	// beside the root and in the working directory) - it must be served as stored, under every spelling of its path
 	keyLookup := []string{"/PS3ISO/g.iso", "PS3ISO/g.iso", "/sub/../PS3ISO/g.iso", "/PS3ISO/../PS3ISO/g.iso", "/../root/PS3ISO/g.iso", "//PS3ISO//g.iso"}
+	for i := range c01ProductIDs {
+		keyLookup = append(keyLookup, sprintf("/PS3ISO/p%d.iso", i))
+	}
 	for ki, p := range keyLookup {
 		if !r.Mine(ki) {
 			continue
